@@ -54,6 +54,12 @@ def gen_template(rng, L):
         [["iter"]] + N(L + 1) + [["state"], ["fresh"], ["load", 0], ["iter"]] + N(b),              # end-of-epoch state
         [["iter"]] + N(L) + [["state"], ["fresh"], ["load", 0], ["iter"]] + N(b) + [["state"], ["fresh"], ["load", 1], ["iter"]] + N(b),
         [["state"], ["iter"]] + N(a) + [["state"], ["iter"]] + N(b),                               # state before iter: no double start
+        # a checkpoint taken from a RESUMED loader after some more items, resumed again (fresh object / same object)
+        [["iter"]] + N(a) + [["state"], ["fresh"], ["load", 0], ["iter"]] + N(b) + [["state"], ["fresh"], ["load", 1], ["iter"]] + N(b),
+        [["iter"]] + N(a) + [["state"], ["load", 0], ["iter"]] + N(b) + [["state"], ["load", 1], ["iter"]] + N(b),
+        [["iter"]] + N(a) + [["state"], ["fresh"], ["load", 0], ["iter"]] + N(L + 1) + [["state"], ["fresh"], ["load", 1], ["iter"]] + N(b),
+        # state_dict() between the load of an end-of-epoch state and iter()
+        [["iter"]] + N(L + 1) + [["state"], ["fresh"], ["load", 0], ["state"], ["iter"]] + N(b) + [["iter"]] + N(b),
         [["state"], ["state"], ["iter"], ["next"], ["iter"]] + N(b),
         [["iter"]] + N(a) + [["state"], ["iter"]] + N(b) + [["load", 0], ["next"], ["iter"]] + N(b),   # old iterator keeps going after load
         [["iter"]] + N(a) + [["state"], ["fresh"], ["load", 0], ["load", 0], ["iter"]] + N(b) + [["load", 0], ["iter"]] + N(b),
@@ -71,6 +77,10 @@ def gen_sdl_ops(rng, L):
             [["iter"]] + N(a) + [["state"], ["load", 0], ["state"], ["iter"]] + N(b),
             [["iter"]] + N(L + 1) + [["state"], ["fresh"], ["load", 0], ["iter"]] + N(b) + [["iter"]] + N(b),
             [["iter"]] + N(L) + [["state"], ["fresh"], ["load", 0], ["iter"]] + N(b),
+            # state_dict() between the load of an end-of-epoch state and iter(): the finished iterator it builds is not handed out
+            [["iter"]] + N(L + 1) + [["state"], ["fresh"], ["load", 0], ["state"], ["iter"]] + N(b) + [["iter"]] + N(b),
+            [["iter"]] + N(L) + [["next"], ["state"], ["load", 0], ["state"], ["state"], ["iter"]] + N(L + 1) + [["iter"]] + N(1),
+            [["iter"]] + N(a) + [["state"], ["fresh"], ["load", 0], ["iter"]] + N(b) + [["state"], ["fresh"], ["load", 1], ["iter"]] + N(b),
             [["iter"]] + N(a) + [["state"], ["iter"]] + N(b) + [["load", 0], ["next"], ["iter"]] + N(b),
             [["iter"]] + N(a) + [["state"], ["load_empty"], ["iter"]] + N(b),
             [["state"], ["load_empty"], ["iter"]] + N(b),                                          # state_dict() built the iterator; {} drops it
